@@ -15,7 +15,8 @@ RULE = ("cases = (a) IniFile histories on one path: an INI text generated from s
         "and/or destruction, reopen, and a fresh read-only IniFile at the end; (b) the same as one composite op judged by an "
         "independent python INI semantics; (c) 'wild' INI texts outside the grammar (garbage lines, unclosed or indented headers, "
         "'/' in keys, blank-padded values) for the model correspondence only; (d) tables up to 30x8 written through "
-        "TabularDataFile and read back, cells = %.15g numbers of every magnitude 4.9e-324..1.8e308 (subnormals included), ints, empty strings, strings over "
+        "TabularDataFile (cell by cell, and rows handed over as array Vars incl. the same array object sent again and arrays shorter/longer "
+        "than the column count) and read back, cells = %.15g numbers of every magnitude 4.9e-324..1.8e308 (subnormals included), ints, empty strings, strings over "
         "letters digits , ; \" ' space - . e +; (e) arbitrary CSV texts through the reader; (f) myatof on number lexemes; "
         "non-trivial = distinct case with at least one set on a non-empty text, or a table with at least one non-empty cell")
 TRUSTED = ["harness/c18.cpp number cells: strtod() of the %.15g lexeme produces the double handed to TabularDataFile, "
@@ -293,6 +294,41 @@ def csv_case(rng, tier):
     return ["tabw " + args, ("tabrtx " if numlike else "tabrt ") + args]
 
 
+def csv_array_case(rng, tier):
+    """rows handed to operator<< as array Vars: a fresh array per row, the SAME array Var object again (`=`),
+    arrays shorter or longer than the column count followed by single cells, mixed with cell-by-cell rows"""
+    names, cells, _ = gen_table(rng, tier, False)
+    n = len(names)
+    cells = cells[:len(cells) - len(cells) % n]
+    rows = [cells[i:i + n] for i in range(0, len(cells), n)][:12]
+    if not rows:
+        rows = [["n:1"] * n]
+    items = []
+    have_array = False
+    for r in rows:
+        q = rng.random()
+        if q < 0.45:
+            items += ["["] + r + ["]"]
+            have_array = True
+            while rng.random() < 0.4:
+                items.append("=")            # the caller sends the same array once more
+        elif q < 0.6 and have_array:
+            items.append("=")
+        elif q < 0.75 and n > 1:
+            k = rng.randrange(0, n)          # a short array, the rest of the row cell by cell
+            items += ["["] + r[:k] + ["]"] + r[k:]
+            have_array = True
+            if rng.random() < 0.3:
+                items.append("=")
+        elif q < 0.8:
+            items += ["["] + r + r[:1] + ["]"]   # too long: never written, replaced by the next array
+            have_array = True
+        else:
+            items += r
+    args = "%d %s %s" % (n, " ".join(hexs(x) for x in names), " ".join(items))
+    return ["tabw " + args, "tabrt " + args]
+
+
 CSVCH = b"ab1,;\"\t .-e\n\r5"
 
 
@@ -350,6 +386,8 @@ def gen(rng, tier):
         cases.append(ini_composite(rng, tier, True))
     for _ in range(500 * k):
         cases.append(csv_case(rng, tier))
+    for _ in range(250 * k):
+        cases.append(csv_array_case(rng, tier))
     for _ in range(400 * k):
         cases.append(csvtext_case(rng, tier))
     for _ in range(60 * k):
@@ -371,7 +409,7 @@ def nontrivial(case):
         t = l.split()
         if t[0] in ("set", "put") or (t[0] == "inirt" and len(t) > 3 and t[2] not in ("-", "none")):
             return True
-        if t[0] in ("tabw", "tabrt", "tabrtx") and any(c not in ("s:-",) for c in t[2 + int(t[1]):]):
+        if t[0] in ("tabw", "tabrt", "tabrtx") and any(c not in ("s:-", "[", "]", "=") for c in t[2 + int(t[1]):]):
             return True
         if t[0] in ("tabread", "atof") and t[1] != "-":
             return True
@@ -420,8 +458,11 @@ def distribution(cases):
                             break
             if op in ("tabrt", "tabrtx"):
                 n = int(t[1])
-                cells = t[2 + n:]
+                cells = [x for x in t[2 + n:] if x not in ("[", "]", "=")]
                 tb = d["tables"]
+                if "[" in t:
+                    tb["with_array_rows"] = tb.get("with_array_rows", 0) + 1
+                    tb["array_resent"] = tb.get("array_resent", 0) + t.count("=")
                 tb["cols"][n] = tb["cols"].get(n, 0) + 1
                 r = len(cells) // n
                 tb["rows"][r] = tb["rows"].get(r, 0) + 1
@@ -494,11 +535,34 @@ def ini_expected(file_arg, pairs):
 
 
 def table_expected(t):
+    """rows that get written, from the documented behaviour: an item is appended to the current row, an array IS the current
+    row, the row is written when it has as many cells as there are columns; and the lengths the caller's arrays must still have"""
     n = int(t[1])
     names = [unhex(x) for x in t[2:2 + n]]
-    cells = t[2 + n:]
-    rows = [cells[i:i + n] for i in range(0, len(cells) - len(cells) % n, n)]
-    return names, rows
+    rows, pending, cur, last, lens = [], [], None, None, []
+    def flush():
+        nonlocal pending
+        if len(pending) == n:
+            rows.append(pending)
+            pending = []
+    for x in t[2 + n:]:
+        if x == "[":
+            cur = []
+        elif x == "]":
+            last = cur
+            lens.append(len(cur))
+            cur = None
+            pending = list(last)
+            flush()
+        elif x == "=":
+            pending = list(last)
+            flush()
+        elif cur is not None:
+            cur.append(x)
+        else:
+            pending = pending + [x]
+            flush()
+    return names, rows, lens
 
 
 def reference(line):
@@ -509,7 +573,7 @@ def reference(line):
             pairs = [(unhex(t[i]), unhex(t[i + 1])) for i in range(3, len(t) - 1, 2)]
             return ini_expected(t[2], pairs)
         if op == "tabrt":
-            names, rows = table_expected(t)
+            names, rows, _ = table_expected(t)
             out = []
             for r in rows:
                 cs = []
@@ -521,7 +585,7 @@ def reference(line):
                 out.append(",".join(cs))
             return "cols=%s rows=%s" % (",".join(hexs(x) for x in names), ";".join(out))
         if op == "tabw":
-            names, rows = table_expected(t)
+            names, rows, lens = table_expected(t)
             n = len(names)
             if n == 1 and any(c == "s:-" for r in rows for c in r):
                 return None      # python writes a lone empty field as "" (quoted); both spellings are valid CSV
@@ -533,7 +597,7 @@ def reference(line):
             s = buf.getvalue().encode("latin-1")
             if not rows:
                 s = s[:-1]   # asl ends the header line when the first row is written
-            return hexs(s)
+            return hexs(s) + (" lens=" + ",".join(str(x) for x in lens) if lens else "")
         if op == "atof":
             lex = unhex(t[1])
             return hexs(fmt15(float(lex)))
@@ -564,7 +628,7 @@ LEVEL_TEXT = ("Proved in Lean 4 about the model that the driver runs against the
               "(5) csv_row_roundtrip: for every separator and every non-empty row of strings of any bytes other than NUL, LF, CR "
               "(separators, quotes, blanks, empty) and number texts, parseRow(writeRow r) = r cell for cell; csv_table_roundtrip: for every list of identifier "
               "column names and every table of such cells (strings without line breaks that do not spell a number, number texts) the "
-              "file written through columns()/operator<< and read by a fresh TabularDataFile (header detection, separator sniffing, "
+              "file written through columns()/operator<< cell by cell or row by row as array Vars (the same array sent again included) and read by a fresh TabularDataFile (header detection, separator sniffing, "
               "data() loop, BOM test, type inference) gives back the columns and the rows cell for cell, numbers as myatof of the text "
               "written; (6) csv_number_exact_Q: every number text "
               "[-]digits[.digits][(e|E)[+|-]digits] with at most 18 mantissa digits and 9 exponent digits is accepted by myisnumber, keeps "
